@@ -343,7 +343,12 @@ func (e StdEng) denseConcat(a DenseTensor, axis int, Ts []DenseTensor) (DenseTen
 
 		}
 
-		if err = assignArray(v, T); err != nil {
+		err = assignArray(v, T)
+		if Tmask != nil {
+			// the operand's mask was only set aside for the raw copy: it stays the operand's
+			T.(MaskedTensor).SetMask(Tmask)
+		}
+		if err != nil {
 			return nil, errors.Wrap(err, "Unable to assignArray in denseConcat")
 		}
 		// if it's a masked tensor, we copy the mask as well
